@@ -69,6 +69,13 @@ claimed.update({
    technique="exhaustive single/double JSON schema-fault enumeration and bounded token-string enumeration under recover/watchdog",
    design="5/C04"),
 })
+claimed.update({
+ "C01": dict(
+   text="Bounded exhaustive exploration of the SPDX 2.3 write->read round trip on the real writer and reader: every graph shape over <=4 SPDX ids (ordered edge-object lists of <=3 objects with every non-empty target subset incl. self loops, cycles, repeated targets; every root subset; package/file kind patterns; indents 0,1,4), complete enum sweeps (all 44 relationship types singly and pairwise, all hash algorithms singly and pairwise on packages and files, identifier types, external-reference types, purposes) and every set of <=2 (thorough 3) attribute deviations from a 100-entry menu on a package+file document, against a set-of-triples graph model and a comparison of the listed attributes modulo the NOASSERTION/NONE convention; a second pass must change nothing.",
+   note="Trusted: 10-line graph reference and the attribute comparison table; alphabets stated in evidence.assumptions; unlisted attributes are not judged.",
+   technique="explicit enumeration of construction spaces through the real writer/reader against a triple-set model",
+   design="5/C01"),
+})
 pending = {}
 all_ids = ["C%02d" % i for i in range(1, 21)]
 checks = []
